@@ -144,6 +144,7 @@ func getNextLinebox(context *layoutContext, linebox *bo.LineBox, positionY, bott
 		originalPositionX, originalPositionY := positionX, positionY
 		originalWidth := linebox.Width.V()
 		waitingFloats = waitingFloats[:0] // reset
+		linePlaceholders, lineAbsolutes, lineFixed = nil, nil, nil
 
 		maxX := positionX + availableWidth
 		positionX += linebox.TextIndent.V()
